@@ -23,9 +23,19 @@ DT_FLOAT64 = z3.Const('DTYPE_FLOAT64', DTYPE)
 DT_INT64 = z3.Const('DTYPE_INT64', DTYPE)
 result_type = z3.Function('np_result_type', DTYPE, DTYPE, DTYPE)
 
+holds = z3.Function('dtype_holds', DTYPE, DTYPE, z3.BoolSort())     # "an array of dtype a can hold every value of dtype b without loss"
+_a, _b, _c = z3.Consts('hd_a hd_b hd_c', DTYPE)
 DTYPE_AXIOMS = [
     kind_of(DT_OBJECT) == KINDS['O'], kind_of(DT_BOOL) == KINDS['b'],
     kind_of(DT_FLOAT64) == KINDS['f'], kind_of(DT_INT64) == KINDS['i'],
+    # ASSUMED about NumPy: object is the only dtype of kind O, np.bool_ the only one of kind b
+    z3.ForAll([_a], z3.Implies(kind_of(_a) == KINDS['O'], _a == DT_OBJECT)),
+    z3.ForAll([_a], z3.Implies(kind_of(_a) == KINDS['b'], _a == DT_BOOL)),
+    # ASSUMED about NumPy (known not to hold for int64/uint64 -> float64 above 2**53: recorded known finding C07):
+    z3.ForAll([_a], holds(_a, _a)),
+    z3.ForAll([_a], holds(DT_OBJECT, _a)),
+    z3.ForAll([_a, _b], z3.And(holds(result_type(_a, _b), _a), holds(result_type(_a, _b), _b))),
+    z3.ForAll([_a, _b, _c], z3.Implies(z3.And(holds(_a, _b), holds(_b, _c)), holds(_a, _c))),
 ]
 
 ASSUMED = {
@@ -186,11 +196,13 @@ class NpModuleEnv(ModuleEnv):
         return super().method_call(base, name, node, eng, st)
 
     def specfn(self, name, node, eng, st):
-        if name in ('kind_is', 'np_result_type', 'W', 'frozen', 'same_array', 'dtype_class'):
+        if name in ('kind_is', 'np_result_type', 'W', 'frozen', 'same_array', 'dtype_class', 'holds'):
             vals = [eng.ev(x, st) for x in node.args]
             if name == 'kind_is':       # kind_is(dt, 'O', 'U', ...)
                 ks = [v.py for v in vals[1:]]
                 return VBool(z3.Or(*[kind_of(vals[0].t) == KINDS[k] for k in ks]))
+            if name == 'holds':
+                return VBool(holds(vals[0].t, vals[1].t))
             if name == 'np_result_type':
                 return VU(result_type(vals[0].t, vals[1].t), 'dtype')
             if name == 'W':             # width of a block
